@@ -341,8 +341,8 @@ impl Replay {
                 let text = text_of_cps(&xs[1])?;
                 nats(&xs[2])?;
                 nats(&xs[3])?;
-                let r = guarded(|| tokenize(None, &text));
-                tok_answer(&text, &r)
+                let (r, ranges) = crate::suite_lexer::tokenize_recorded(&text);
+                tok_answer(&text, &r, &ranges)
             }
             // -- store layer (suites unify, programs, pipeline)
             ("unify", 5) => {
